@@ -327,7 +327,7 @@ class GenLog:
             b = f.read()
         return hashlib.sha256(b.replace(os.path.basename(path).encode(), b"@OUT@")).hexdigest()[:16]
 
-    def run(self, cff, root, pkg, mode="base", extra=(), files=None, alt=None, expectok=True, typecheck=False, scan_tool=None, timeout=600):
+    def run(self, cff, root, pkg, mode="base", extra=(), files=None, alt=None, expectok=True, typecheck=False, scan_tool=None, timeout=600, stale=None):
         """One invocation.  files: None = the whole package, else the list of source files given with -file;
         alt: {file: output path relative to the package} for -file=IN=OUT.  Returns the event."""
         d = os.path.join(root, pkg)
@@ -335,9 +335,20 @@ class GenLog:
         selected = list(files) if files is not None else srcs
         alt = alt or {}
         outputs = [os.path.join(pkg, alt.get(f, gen_name(f))) for f in selected]
-        for o in outputs:                      # fresh run: the outputs do not exist beforehand
-            if os.path.exists(os.path.join(root, o)):
-                os.remove(os.path.join(root, o))
+        for o in outputs:
+            po = os.path.join(root, o)
+            if stale is None:                  # fresh run: the outputs do not exist beforehand
+                if os.path.exists(po):
+                    os.remove(po)
+            elif os.path.exists(po) and stale != "same":
+                # the run meets an older output: the last one plus trailing declarations, or only its head
+                text = open(po).read()
+                if stale == "longer":
+                    text += "\nfunc vStaleTail%d() int { return %d }\n" % (len(self.events), len(self.events))
+                else:
+                    k = text.find("\nimport")
+                    text = text[:k + 1] if k > 0 else text[:len(text) // 2]
+                open(po, "w").write(text)
         before = snapshot(root)
         cmd = [cff, "-quiet"] + (["-genmode", mode] if mode != "base" else []) + list(extra)
         if files is not None:
@@ -351,7 +362,8 @@ class GenLog:
         diag = sorted({os.path.basename(m.group(1)) for m in re.finditer(r"([A-Za-z0-9_./-]+\.go):\d+:\d+: ", text)})
         ev = dict(ev="run", id=len(self.events) + 1, pkg=pkg, mode=mode, flags=" ".join(extra), selected=selected, outputs=outputs,
                   expectok=expectok, rc=r.returncode, crashed=(("panic:" in text or "fatal error:" in text) and "goroutine " in text), diagfiles=diag,
-                  written=[[p, self.nhash(os.path.join(root, p))] for p in written], deleted=deleted, fresh=True,
+                  written=[[p, self.nhash(os.path.join(root, p))] for p in written], deleted=deleted, fresh=stale is None, stale=stale or "",
+                  final=[self.nhash(os.path.join(root, o)) if os.path.exists(os.path.join(root, o)) else "" for o in outputs],
                   typechecks="skipped", surviving=0, stderr=text[-600:])
         if r.returncode == 0 and typecheck:
             ok, err = typecheck_pkg(self.c, root, pkg)
